@@ -14,17 +14,51 @@ Qed.
 
 From EG Require Import Proofs.Textbox.
 
+(* the index of a built-in mapping is small: index_ok holds for every string *)
+Lemma builtin_index_ok b atlas text : In b fonts -> index_ok (MFont (bf_font b) (builtin_index b) atlas) text.
+Proof.
+  intros H c _. cbn [mf_geom mf_index]. apply builtin_glyph_index_ok. exact H.
+Qed.
+
 (* C02 text clause for every built-in font: the record is well formed (vm_compute over the regenerated
    table), spacing is 0, so only the coordinate range remains as hypothesis *)
-Theorem builtin_text_drawn_in_bbox b idx atlas s ts pos text q :
+Definition lines_in_range (f : font) (s : cstyle) (ts : tstyle) (pos : point) (text : list Z) : Prop :=
+  forall line p, In (line, p) (text_lines f s ts pos text) -> draw_ok f p (length line).
+
+Theorem builtin_text_drawn_in_bbox b atlas s ts pos text q :
   In b fonts ->
-  let F := MFont (bf_font b) idx atlas in
-  text_in_range (bf_font b) s ts pos text ->
+  let F := MFont (bf_font b) (builtin_index b) atlas in
+  lines_in_range (bf_font b) s ts pos text ->
   render (fst (text_draw F s ts pos text)) q <> None ->
   contains (text_bbox (bf_font b) s ts pos text) q = true.
 Proof.
   intros H F Hr Hq. destruct (builtin_font_wf b H) as [Hw Hsp].
   destruct (font_wf_deco_inside _ Hw) as [Hf Hdi].
   apply (text_drawn_in_bbox F s ts pos text q); auto.
-  intros line p Hin. split; [apply Hr; assumption|left; exact Hsp].
+  intros line p Hin. split; [apply Hr; assumption|]. split; [apply builtin_index_ok; assumption|left; exact Hsp].
+Qed.
+
+(* ---- C15 on the property's quantifier: built-in fonts, Text level *)
+Theorem builtin_text_draw_returns_measured b idx atlas s ts pos text line p :
+  In b fonts ->
+  let F := MFont (bf_font b) idx atlas in
+  last_opt (text_lines (bf_font b) s ts pos text) = Some (line, p) ->
+  snd (text_draw F s ts pos text) = snd (measure_string (bf_font b) s line p (t_base ts)).
+Proof.
+  intros H F Hl. destruct (builtin_font_wf b H) as [Hw Hsp].
+  apply (text_draw_returns_measured F s ts pos text line p); cbn [mf_geom F]; auto;
+    [red in Hw; unfold font_ok in Hw; lia|lia|left; exact Hsp].
+Qed.
+
+Theorem builtin_chain_left b atlas s ts pos s1 s2 q :
+  In b fonts ->
+  let F := MFont (bf_font b) (builtin_index b) atlas in
+  t_align ts = ALeft -> no_nl s1 -> no_nl s2 -> strip_cr s1 = s1 -> draw_ok (bf_font b) pos (length (s1 ++ s2)) ->
+  let r1 := text_draw F s ts pos s1 in
+  let r2 := text_draw F s ts (snd r1) s2 in
+  let r12 := text_draw F s ts pos (s1 ++ s2) in
+  snd r2 = snd r12 /\ render (fst r1 ++ fst r2) q = render (fst r12) q.
+Proof.
+  intros H F Ha H1 H2 Hc Hd. destruct (builtin_font_wf b H) as [Hw Hsp]. destruct Hw as (Hok & _).
+  apply (text_chain_left F s ts pos s1 s2 q); auto. apply builtin_index_ok. exact H.
 Qed.
